@@ -91,6 +91,15 @@ Lemma ephemeral_single_rev_differs :
   nth 1 (mem_map_run cfE w_ephemeral_single_rev) MErr = MUnrec.
 Proof. vm_compute. split; reflexivity. Qed.
 
+(* ExpectedPosition with an empty Epoch: map_broker_add.lua only runs the CAS check when
+   expected_epoch ~= '', so Redis applies the write; memory compares the epochs and refuses *)
+Definition w_cas_empty_epoch :=
+  [pub "a" "k1" "d1" "N0"; MPublish "a" "k1" (mkMP "" 0 "d2" false 0 "" 0 "" false (Some (7%N, ""))) "N1" 1000].
+Lemma cas_empty_epoch_differs :
+  nth 1 (redis_map_run cfP w_cas_empty_epoch) MErr = MUpd 2 "N0" false "" None /\
+  nth 1 (mem_map_run cfP w_cas_empty_epoch) MErr = MUpd 1 "N0" true "position_mismatch" (Some (1%N, "d1")).
+Proof. vm_compute. split; reflexivity. Qed.
+
 (* ReadState on a missing channel with a Revision whose epoch is empty *)
 Definition w_state_missing_rev := [MReadState "a" (Some (0%N, "")) (-1) "" false "N0" "N0"].
 Lemma state_missing_rev_differs : redis_map_run cfP w_state_missing_rev <> mem_map_run cfP w_state_missing_rev.
